@@ -260,6 +260,38 @@ def run(ctx):
         elif kind in ('JOIN', 'INNER JOIN', 'LEFT JOIN'):
             ctx.ob('C08.on-clause-side', f'{kind}:anchor', bool(res), f'no ON-derived filter for {kind} any more (anchor; the rule would be vacuous)',
                    file=PJ, line=fn['get_filters_from_join_conditions'].lineno)
+    # ON shapes: only a top-level conjunct of ON restricts the fetched table
+    for label, mk in (('NOT (b.y = 1)', lambda me_, other_: Obj('UnaryOperation', op='not', args=[binop('=', ident('b.y', me_), const(1))], alias=None)),
+                      ('a.id = b.id AND NOT (b.y = 1)', lambda me_, other_: binop('and', binop('=', ident('a.id', other_), ident('b.id', me_)),
+                                                                                 Obj('UnaryOperation', op='not', args=[binop('=', ident('b.y', me_), const(1))], alias=None))),
+                      ('b.y = 1 OR b.z = 2', lambda me_, other_: binop('or', binop('=', ident('b.y', me_), const(1)), binop('=', ident('b.z', me_), const(2)))),
+                      ('coalesce(b.y = 1)', lambda me_, other_: Obj('Function', op='coalesce', args=[binop('=', ident('b.y', me_), const(1))], alias=None, distinct=False,
+                                                                    from_arg=None, namespace=None)),
+                      ('b.y BETWEEN 1 AND 2 AND b.z = 1', lambda me_, other_: binop('and', Obj('BetweenOperation', op='between', args=[ident('b.y', me_), const(1), const(2)],
+                                                                                                alias=None), binop('=', ident('b.z', me_), const(1))))):
+        other = Obj('TableInfo', conditions=[], table=ident('a'), index=0, join_condition=None, join_type=None)
+        me = Obj('TableInfo', conditions=[], table=ident('b'), index=1, join_type='INNER JOIN')
+        on = mk(me, other)
+        me.attrs['join_condition'] = on
+        inner = [x for x in _all_nodes(on) if isinstance(x, Obj) and x.kind == 'BinaryOperation' and str(x.op) == '=' and x is not on]
+        top = _conjuncts(on)
+        stubs = base_stubs()
+        stubs['self.get_table_for_column'] = lambda it, c: c.attrs.get('_table') if isinstance(c, Obj) else None
+        stubs['self.add_plan_step'] = lambda it, s_: s_
+        stubs['SubSelectStep'] = lambda it, *a, **k: Obj('SubSelectStep', result='R-sub', args=a)
+        stubs['Parameter'] = lambda it, v: Obj('Parameter', value=v)
+        self_ = Obj('PlanJoinTablesQuery', tables_fetch_step={0: Obj('FetchDataframeStep', result='R0')})
+        it = Interp(ISA, stubs, methods=_METHODS)
+        try:
+            res = it.call_function(fn['get_filters_from_join_conditions'], [self_, me], {}, _env()) or []
+        except Raised as r:
+            raise AnalysisError(f'get_filters_from_join_conditions raises {r.exc_name} for ON {label}')
+        rows += 1
+        nested = [c for c in res if any(c is x for x in inner) and not any(c is t for t in top)]
+        ctx.ob('C08.on-clause-side', f'ON {label}', not nested,
+               f'ON {label}: a comparison that is not a top-level conjunct of ON ({[_show(c) for c in nested]}) is used as filter of the fetched table: under NOT / OR / a '
+               f'function it does not restrict the join on its own', file=PJ, line=fn['get_filters_from_join_conditions'].lineno,
+               witness='select * from int1.a join int2.b on not (b.y = 1)')
     # get_join_sequence attaches condition and kind of the join whose right side the table is
     for kind in ('LEFT JOIN', 'RIGHT JOIN'):
         cond1, cond2 = binop('=', ident('a.x'), ident('b.x')), binop('=', ident('b.x'), ident('c.x'))
@@ -554,6 +586,14 @@ def run(ctx):
     ctx.floor('limit_gate_rows', 1000)
     ctx.floor('limit_push_rows', 150)
     ctx.floor('join_kinds', 10)
+
+
+def _all_nodes(n):
+    out = [n]
+    if isinstance(n, Obj):
+        for v in n.attrs.get('args', []) or []:
+            out += _all_nodes(v)
+    return out
 
 
 def _env():
